@@ -174,3 +174,16 @@ def queries():
 if _t0 is not None:
     META["assumptions"] = list(META.get("assumptions", [])) + list(getattr(_t0, "ASSUMPTIONS", []))
     META["mutants_tried"] = list(META.get("mutants_tried", [])) + list(getattr(_t0, "MUTANTS", []))
+
+
+# ---- cross-included by the main session: the PEM decoder's byte reader (CR skipping across pushes) is decided by the
+# C07 two-schedule lemma on the extracted native read8-native; a seeded change there (C18b) must fail C18 as well.
+_c18_queries = queries
+def queries():
+    qs = _c18_queries()
+    try:
+        import C07_t0_part
+        qs = qs + [q for q in C07_t0_part.queries() if "pem" in q.name]
+    except Exception:
+        pass
+    return qs
